@@ -13,6 +13,7 @@ A mesh spec (all node / cell numbers zero-based; the encoder adds the start inde
   face_coords / edge_coords: True -> cell coordinate variables exist,
   dtype: integer type of the connectivity variables, pad: extra all-missing columns,
   coords: [xs, ys] integer-valued node coordinates, locs: data variable locations,
+  sub: {location: list of cell positions} -> the topology constructs are also subspaced and normalised,
   raw: optional overrides applied to the encoded (one-based) arrays: malformed stream.
 """
 import json
@@ -179,7 +180,28 @@ def obs_array(fetch):
     return {"shape": list(a.shape), "rows": rows, "dtype": a.dtype.kind}
 
 
-def observe(c):
+def norm_obs(x):
+    """The normalisations of a topology construct (whole or subspaced)."""
+    e = {"array": obs_array(lambda: x.array)}
+    e["norm0"] = obs_array(lambda: x.normalise().array)
+    e["norm0b"] = obs_array(lambda: x.normalise().normalise().array)
+    e["norm1"] = obs_array(lambda: x.normalise(start_index=1, remove_empty_columns=True).array)
+    e["norm1b"] = obs_array(lambda: x.normalise(start_index=1, remove_empty_columns=True)
+                            .normalise(start_index=1, remove_empty_columns=True).array)
+    return e
+
+
+def sub_obs(x, idx):
+    if not idx:
+        return None
+    try:
+        y = x[idx]
+    except Exception as ex:
+        return {"sub_err": errclass(ex), "msg": str(ex)[:160]}
+    return norm_obs(y)
+
+
+def observe(c, sub=None):
     """c: a field or domain construct -> what the property speaks about."""
     out = {}
     axes = c.domain_axes(todict=True)
@@ -194,6 +216,7 @@ def observe(c):
         e["norm1b"] = obs_array(lambda: dt.normalise(start_index=1, remove_empty_columns=True)
                                 .normalise(start_index=1, remove_empty_columns=True).array)
         e["again"] = obs_array(lambda: dt.array)
+        e["sub"] = sub_obs(dt, sub)
         out["dt"] = e
     ccs = []
     for k, cc in sorted(c.cell_connectivities(todict=True).items()):
@@ -201,6 +224,8 @@ def observe(c):
         e["norm0"] = obs_array(lambda: cc.normalise().array)
         e["norm0b"] = obs_array(lambda: cc.normalise().normalise().array)
         e["norm1"] = obs_array(lambda: cc.normalise(start_index=1).array)
+        e["norm1rm"] = obs_array(lambda: cc.normalise(start_index=1, remove_empty_columns=True).array)
+        e["sub"] = sub_obs(cc, sub)
         ccs.append(e)
     out["cc"] = ccs
     auxs = []
@@ -238,7 +263,7 @@ def do_case(s, fn):
                 cell = dt.get_cell(None) if dt is not None else None
                 loc = {"point": "node", "edge": "edge", "face": "face"}.get(cell, "none")
             try:
-                o = observe(c)
+                o = observe(c, (s.get("sub") or {}).get(loc) if mode == "field" else None)
             except Exception as ex:
                 o = {"observe_err": errclass(ex), "msg": str(ex)[:200]}
             if loc in res:
